@@ -12,12 +12,12 @@ for d in sorted(glob.glob('/verif/seeded/*')):
     for dd in m.get('detection_detail', []):
         for o in dd.get('obligations', [])[:2]:
             obs.append(o)
-    why = m.get('why_missed', '')
-    rows.append('| %s | %s | %s | %s | %s |' % (m['id'], ', '.join(files), ', '.join(det) if det else '**missed**', '<br>'.join('`%s`' % o for o in obs[:2]), why))
+    why = m.get('obsolete') or m.get('why_missed', '')
+    rows.append('| %s | %s | %s | %s | %s |' % (m['id'], ', '.join(files), ', '.join(det) if det else ('(obsolete)' if m.get('obsolete') else '**missed**'), '<br>'.join('`%s`' % o for o in obs[:2]), why))
 tab = '| seed | files changed | detected by (quick check) | failing obligation(s) | if missed: why |\n|---|---|---|---|---|\n' + '\n'.join(rows) + '\n'
 p = '/verif/DESIGN.md'
 s = open(p).read()
 s = re.sub(r'(<!-- SEEDTABLE-BEGIN -->\n).*?(<!-- SEEDTABLE-END -->)', lambda mo: mo.group(1) + tab + mo.group(2), s, flags=re.S)
 open(p, 'w').write(s)
-n = sum(1 for r in rows if '**missed**' not in r)
+n = sum(1 for r in rows if '**missed**' not in r and '(obsolete)' not in r)
 print('%d seeds, %d detected' % (len(rows), n))
